@@ -1009,8 +1009,21 @@ def run_compounds(spec, rec, rng, ureg, mon, names, canon, mult):
     nit = spec["nit"]
     g = UnitGen(rng, ureg, nit, names, canon, mult)
     specs = spec_variants()
+    # canonical units that share their symbol: both must survive side by side under '~'
+    bysym = {}
+    for n in canon:
+        bysym.setdefault(names.short(n), []).append(n)
+    twins = [v for v in bysym.values() if len(v) > 1]
+    rec.observe("symbol_twins", repr(sorted(map(tuple, twins))))
     for i in range(spec["n"]):
-        u, ch = g.compound(foreign_rate=0.06)
+        if twins and i % 40 == 7:
+            tw = rng.choice(twins)
+            d = {tw[0]: rng.choice((1, 2, -1)), tw[1]: rng.choice((3, -2, -3))}
+            d[rng.choice(mult)] = rng.choice((1, -1, 2))
+            u, ch = ureg.Unit(ureg.UnitsContainer(d)), "container"
+            rec.count("twin_symbol_compounds")
+        else:
+            u, ch = g.compound(foreign_rate=0.06)
         items = items_of(u._units)
         rec.observe("channels", ch)
         rec.observe("exp_types", exp_type(items))
